@@ -114,11 +114,13 @@ pub fn request_classes() -> Vec<(String, String, Value)> {
 /// one request in a fresh session followed by a liveness probe; None = fine
 pub fn check_request(label: &str, method: &str, params: &Value) -> Option<String> {
     let mut s = Session::start(library());
-    let replies = s.request(method, params.clone(), Duration::from_millis(1500));
+    // the wait ends with the response; the deadline only bounds a request that is never answered (generous: the
+    // machine may be loaded).  `workspace/executeCommand` is answered by a server→client request, not a response
+    let replies = s.request(method, params.clone(), if method == "workspace/executeCommand" { Duration::from_millis(400) } else { DEADLINE });
     let what = if method == "workspace/executeCommand" {
         None // answered by a server→client request, not a response (by design of the handler)
     } else if replies.is_empty() {
-        Some(format!("{}: no response within 1.5 s", label))
+        Some(format!("{}: no response within {} s", label, DEADLINE.as_secs()))
     } else if replies.len() > 1 {
         Some(format!("{}: {} responses", label, replies.len()))
     } else {
@@ -126,7 +128,7 @@ pub fn check_request(label: &str, method: &str, params: &Value) -> Option<String
     };
     // the server keeps serving: a didChange and a formatting request afterwards
     s.notify("textDocument/didChange", json!({"textDocument": {"uri": uri("b"), "version": 2}, "contentChanges": [{"text": "# probe\n"}]}));
-    let probe = s.request("textDocument/formatting", json!({"textDocument": {"uri": uri("b")}, "options": {"tabSize": 2, "insertSpaces": true}}), Duration::from_millis(1500));
+    let probe = s.request("textDocument/formatting", json!({"textDocument": {"uri": uri("b")}, "options": {"tabSize": 2, "insertSpaces": true}}), DEADLINE);
     let alive = probe.len() == 1 && probe[0]["result"][0]["newText"].as_str() == Some("# probe\n");
     // … and answers the other kinds of request exactly as a session that never saw the request does
     let after = battery(&mut s);
@@ -145,6 +147,8 @@ pub fn check_request(label: &str, method: &str, params: &Value) -> Option<String
         .or(isolated)
         .or(if !ended { Some(format!("{}: the loop does not end cleanly on exit", label)) } else { None })
 }
+
+const DEADLINE: Duration = Duration::from_secs(20);
 
 static BASELINE: std::sync::OnceLock<Vec<String>> = std::sync::OnceLock::new();
 
@@ -169,7 +173,7 @@ fn battery(s: &mut Session) -> Vec<String> {
         };
         format!("{}: result {} error {}", method, body, r["error"])
     };
-    let w = Duration::from_millis(1500);
+    let w = DEADLINE;
     let at = |l: u32, c: u32| json!({"line": l, "character": c});
     let mut out = vec![];
     for (method, params) in [
